@@ -168,6 +168,10 @@ func (s *Store) Copy(srcKey, dstKey string) (err error) {
 		return
 	}
 	defer srcRef.Close()
+	if srcKey == dstKey {
+		// creating the destination would truncate the file being copied
+		return nil
+	}
 	p := s.refPath(dstKey)
 	err = s.createParentDir(p)
 	if err != nil {
